@@ -24,7 +24,7 @@ def generate(ctx):
     for i in range(2600 if th else 110):
         kind = KINDS[i % 4]
         dt = rng.choice([1.0, 0.5, 1.3])
-        dk = rng.choice([0.0, 1.0, 3.0, 2.5, 5.0])
+        dk = rng.choice([0.0, 1.0, 3.0, 2.5, 5.0, 0.5, 0.4])     # including maximum delays shorter than one step
         tol = rng.choice([0.0, 1e-3])
         interp = rng.choice(["previous", "nearest"])
         if interp == "nearest" and dk == 2.5:
